@@ -129,6 +129,19 @@ def guard_edges_multi(body, specs):
     return out
 
 
+def value_of(body, e):
+    """for a reference to a plain local, the expression that defines the local's value"""
+    for _ in range(5):
+        if e[0] in ("ref", "place") and len(e[1]) == 1:
+            n = body.expr_place([e[1][0]])
+            if n == e or n[0] == "local":
+                return n
+            e = n
+            continue
+        break
+    return e
+
+
 def named_source(body, operand, depth=8):
     """name of the user variable an operand moves/copies from (through unnamed temporaries)"""
     p = F.op_place(operand)
